@@ -204,11 +204,57 @@ def run(ctx):
                 return None, 0.0
             return m[::-1] + bytes([n % 256]), 0.0
 
-    async def serve(chunks, eof_tail):
-        t = T()
-        reader = asyncio.StreamReader()
+    # The server is started through its own run() so that the stream parameters it asks asyncio for (e.g. a line
+    # length limit) are the ones its handler really gets; asyncio.start_server / start_unix_server are replaced by a
+    # recorder that hands back the callback and the keyword arguments.
+    from gallia.services.uds.server import UnixUDSServerTransport
+    from gallia.transports.base import TargetURI
+
+    class _FakeServer:
+        async def __aenter__(self):
+            return self
+
+        async def __aexit__(self, *a):
+            return False
+
+        async def serve_forever(self):
+            await asyncio.Event().wait()
+
+    async def _capture(transport_cls, uri):
+        got = {}
+
+        async def fake_start(cb, *a, **k):
+            got["cb"] = cb
+            got["limit"] = k.get("limit")
+            return _FakeServer()
+
+        o1, o2 = _srv.asyncio.start_server, _srv.asyncio.start_unix_server
+        _srv.asyncio.start_server = fake_start
+        _srv.asyncio.start_unix_server = fake_start
+        try:
+            class TT(T, transport_cls):
+                def __init__(self):
+                    T.__init__(self)
+                    self.target = TargetURI(uri)
+            t = TT()
+            task = asyncio.ensure_future(t.run())
+            for _ in range(5):
+                await asyncio.sleep(0)
+            task.cancel()
+            try:
+                await task
+            except BaseException:
+                pass
+        finally:
+            _srv.asyncio.start_server, _srv.asyncio.start_unix_server = o1, o2
+        return t, got
+
+    async def serve(chunks, eof_tail, kind=0):
+        t, got = await _capture(*[(TCPUDSServerTransport, "tcp-lines://127.0.0.1:20162"), (UnixUDSServerTransport, "unix-lines:///tmp/verif-c19.sock")][kind])
+        handler = got.get("cb", t.handle_client)
+        reader = asyncio.StreamReader(limit=got["limit"]) if got.get("limit") else asyncio.StreamReader()
         writer = MemWriter()
-        task = asyncio.ensure_future(t.handle_client(reader, writer))
+        task = asyncio.ensure_future(handler(reader, writer))
         for c in chunks:
             reader.feed_data(c)
             for _ in range(3):
@@ -233,10 +279,15 @@ def run(ctx):
         srv_cases.append((stream + tail, chunks, tail))
     for line in [b"3e00\nzz\n3e00\n", b"3E00\r\n1001\n"]:
         srv_cases.append((line, [line], b""))
+    for size in (2048, 2049, 4095):  # long requests: the hex line is twice as long as the message
+        m = bytes([0x36]) + bytes(rng.randrange(256) for _ in range(size - 1))
+        line = m.hex().encode() + b"\n" + b"3e00\n"
+        srv_cases.append((line, _splits(rng, line, "multi"), b""))
+        srv_cases.append((line + b"3e00\n", _splits(rng, line + b"3e00\n", "multi"), b""))  # other parity -> other server kind
     batch = ["serve " + hx(s) for s, _, _ in srv_cases]
     out = ctx.lean(batch)
     for (stream, chunks, tail), mo in zip(srv_cases, out):
-        (written, done_early, n), _vt = vrun(serve(chunks, tail))
+        (written, done_early, n), _vt = vrun(serve(chunks, tail, kind=len(stream) % 2))
         w_m, err_m, left_m, n_m = mo.split()
         ctx.ev()
         ctx.kind("server:burst" + ("+partial-tail" if tail else ""))
